@@ -153,6 +153,7 @@ func cmdReplay(args []string) int {
 		return 2
 	}
 	cmd := exec.Command(self, "replay-child", args[0])
+	cmd.Env = append(os.Environ(), "VERIF_REPLAY=1")
 	var sb strings.Builder
 	cmd.Stdout = &sb
 	cmd.Stderr = &sb
